@@ -652,6 +652,34 @@ def capa_l2_end_to_end_stream(ctx, count):
                      % (flist(X[:, 0]), fl(ac), fl(ap), m, M, fl(magf), fl(bf), flist(scores), pairs_nat(coll), pairs_nat(pts)))
         metas.append({"detector": "CAPA", "saving": "L2Saving", "n": n, "min_segment_length": m, "max_segment_length": M, "alpha_collective": ac, "alpha_point": ap, "X": X.tolist(),
                       "Magf": magf, "Bf": bf, "impl_anomalies": [list(t) for t in iv], "impl_final_score": float(scores[-1])})
+        # the CONCLUSION of C03_binary64_l2_end_to_end on the implementation's own output, in exact rational arithmetic: optimum of the total penalised L2 saving (dynamic
+        # programme on Fractions of the floats' values) minus the total of the reported anomalies <= 3 n (delta + u Mag), delta = (4.2 n + 5) u (n Bf)^2 + u Mag
+        from fractions import Fraction as _Fr
+        xq = [_Fr(float(v)) for v in X[:, 0]]
+        pq = [_Fr(0)]
+        for v in xq:
+            pq.append(pq[-1] + v)
+
+        def _sav(s_, e_):
+            return (pq[e_] - pq[s_]) ** 2 / (e_ - s_)
+        aq, apq = _Fr(ac), _Fr(ap)
+        Gq = [_Fr(0)] * (n + 1)
+        for t_ in range(1, n + 1):
+            best_ = max(Gq[t_ - 1], Gq[t_ - 1] + _sav(t_ - 1, t_) - apq)
+            for s_ in range(max(0, t_ - M), t_ - m + 1):
+                best_ = max(best_, Gq[s_] + _sav(s_, t_) - aq)
+            Gq[t_] = best_
+        own_q = sum(_sav(l_, r_) - (apq if r_ - l_ == 1 else aq) for l_, r_ in iv)
+        u53 = 2.0 ** -53
+        mag_r = magf / (1 - u53)
+        bound = 3 * n * (((4.2 * n + 5) * u53 * (n * bf) ** 2 + u53 * mag_r) + u53 * mag_r)
+        gap = float(Gq[n] - own_q)
+        ctx.count("binary64_l2_theorem_conclusion", "gap <= bound" if gap <= bound else "gap > bound")
+        if gap > bound:
+            ctx.violation(f"CAPA(L2Saving) on one float column (n={n}, m={m}, M={M}): the optimum of the total penalised saving exceeds the total of the reported anomalies {iv} by "
+                          f"{gap!r}, more than the proved bound {bound!r} of the binary64 run (C03_binary64_l2_end_to_end)", {"X": X.tolist(), "alpha_collective": ac, "alpha_point": ap,
+                                                                                                                             "anomalies": [list(t) for t in iv], "gap": gap, "bound": bound},
+                          {"what": "binary64-theorem-conclusion", "detector": "CAPA"})
         ctx.case({"float": "capa-l2-e2e", "it": it, "n": n, "m": m, "x0": float(X[0, 0])}, nontrivial=len(iv) > 0,
                  sample={"stream": "binary64 end-to-end CAPA(L2Saving)", "n": n, "m": m, "M": M, "impl_anomalies": iv})
         ctx.count("float_stream", "capa-l2-end-to-end")
